@@ -169,7 +169,8 @@ def run(prop: str, tier_: str) -> int:
                             urls.append((f'/dash/vod/{stream}/{rid}/time/{t}.{ext}', 'vod-time'))
                             # live far from the start: forces a 64-bit tfdt for high timescales
                             el = (NOW - datetime.datetime(1970, 1, 1, tzinfo=datetime.timezone.utc)).total_seconds()
-                            ln = int(el * sf.timescale // (sf.media_duration // len(sf.segments))) - 2
+                            segdur = (sf.segments[-1].tfdt - sf.segments[0].tfdt) // (len(sf.segments) - 1)     # as the indexer estimates it
+                            ln = int(el * sf.timescale // segdur) - 2
                             urls.append((f'/dash/live/{stream}/{rid}/{ln}.{ext}', 'live-number-epoch'))
                             for path, kind in urls:
                                 qq = q + ('&start=epoch&depth=60' if kind.startswith('live') else '')
